@@ -62,7 +62,7 @@ func genC12(t *rapid.T) *Case {
 // regParkPoints: where a registration or de-registration step can be held. The cb.*
 // points are inside the application's own callbacks (which may take arbitrarily long),
 // the others are the verif yield points between the two-level registry's steps.
-var regParkPoints = []string{"cb.affinity", "cb.open", "cb.close", "handler.reverse.betweenAdds", "handler.unregister.between", "client.close.afterTearDown"}
+var regParkPoints = []string{"cb.affinity", "cb.open", "cb.close", "handler.reverse.betweenAdds", "handler.reverse.beforeKeyAdd", "handler.reverse.beforeKeyAdd", "handler.unregister.between", "client.close.afterTearDown"}
 
 // genC12Win: registry histories in which opens and closes are held half-way (parked)
 // while other tunnels open and close and the registry is queried.
